@@ -477,13 +477,14 @@ def objective_fn(case, record):
             return "F_first"
         if pat == "nan" and i % 4 == 2:
             return float("nan") if i % 8 == 2 else float("-inf")
+        off, sc = float(case.get("offset", 0.0)), float(case.get("scale", 1.0))
         if pat == "const":
-            return 0.0
+            return off
         if pat == "moo":  # two objectives (the scalarisation path of the optimizer), now and then a failure
             if i % 5 == 3:
                 return "F_moo"
             v = math.atan(float(i % 7)) + sum(0.1 for x in job.parameters.values() if x)
-            return (v, -0.5 * v)
+            return (off + sc * v, off - 0.5 * sc * v)
         # a deterministic objective of the position in the run and of the numeric values (any function will do)
         s = 0.0
         for v in job.parameters.values():
@@ -492,7 +493,7 @@ def objective_fn(case, record):
         for name, val in (case.get("favor") or {}).items():  # bonus for declared values
             if job.parameters.get(name) == val:
                 s += 3.0
-        return s + 0.01 * ((i * 7) % 5)
+        return off + sc * (s + 0.01 * ((i * 7) % 5))   # a large offset with a tiny spread, huge / tiny magnitudes: legal objectives
 
     return run
 
@@ -601,6 +602,8 @@ def check_search(case):
         desc.append("option=%s" % k)
     if case.get("reuse_problem"):
         desc.append("problem_reused")
+    if "offset" in case or "scale" in case:
+        desc.append("objectives=%g+-%g" % (case.get("offset", 0.0), case.get("scale", 1.0)))
     res = dict(ok=True, kind="oracle", clause="", sig=sig, nontrivial=False, desc=desc)
     pb = build_problem(case["problem"])
     record = []
@@ -729,6 +732,9 @@ def check_search(case):
 
 
 # ---- problems ----
+UNSORTED_ORDINALS = [[64, 16, 32, 128], [0.9, 0.5, 0.99, 0.0], [3, 1, 2], [2.5, -1.5, 0.0], [100, 10, 1000], [0.2, 0.1, 0.5]]
+
+
 def gen_hp(rng, kind, name):
     if kind == "int":
         c = rng.random()
@@ -768,9 +774,11 @@ def gen_hp(rng, kind, name):
     if kind == "ordnum":
         c = rng.random()
         if c < 0.5:
-            return dict(kind="ord", name=name, choices=rng.choice([[1, 2, 4, 16], [8, 16, 32, 64, 128], [0, 1], [-5, 0, 5], [3, 1, 2], [10, 100, 1000]]))
+            return dict(kind="ord", name=name, choices=rng.choice([[1, 2, 4, 16], [8, 16, 32, 64, 128], [0, 1], [-5, 0, 5], [3, 1, 2], [10, 100, 1000],
+                                                                   [64, 16, 32, 128], [5, -5, 0], [1000, 10, 100]]))   # (ordinals define their own ranking: any order)
         if c < 0.8:
-            return dict(kind="ord", name=name, choices=rng.choice([[0.1, 0.5, 0.9], [1e-3, 1e-2, 1e-1], [-1.5, 2.5], [0.25, 0.5, 1.0, 2.0]]))
+            return dict(kind="ord", name=name, choices=rng.choice([[0.1, 0.5, 0.9], [1e-3, 1e-2, 1e-1], [-1.5, 2.5], [0.25, 0.5, 1.0, 2.0],
+                                                                   [0.9, 0.5, 0.99, 0.0], [2.5, -1.5], [0.2, 0.1, 0.5]]))
         return dict(kind="const", name=name, value=rng.choice([7, 2.5, "fixed", 0]))
     raise ValueError(kind)
 
@@ -818,9 +826,12 @@ def gen_constrained(rng):
     if rng.random() < 0.5:
         hps.append(dict(kind="int", name="e", lo=0, hi=5))
     conds = [dict(child="b", parent="a", op="eq", value="x"), dict(child="c", parent="a", op="in", value=["x", "y"])]
+    if rng.random() < 0.6:  # a numeric ordinal whose sequence is not increasing, as a (possibly nested) conditional child
+        hps.append(dict(kind="ord", name="w", choices=rng.choice(UNSORTED_ORDINALS)))
+        conds.append(dict(child="w", parent="d", op="eq", value="p") if rng.random() < 0.5 else dict(child="w", parent="a", op="in", value=["y", "z"]))
     if rng.random() < 0.7:
         conds.append(dict(child="d", parent="o", op=rng.choice(["neq", "eq"]), value=hps[3]["choices"][0]))
-    if len(hps) == 7:
+    if any(h["name"] == "e" for h in hps):
         conds.append(dict(child="k", parent="e", op=rng.choice(["gt", "lt"]), value=2))
     forb = []
     if rng.random() < 0.8:
@@ -855,8 +866,10 @@ def gen_conditional_children(rng):
            dict(kind="float", name="lr", lo=lo2, hi=lo2 * 1000.0, log=True),
            dict(kind="int", name="warm", lo=rng.choice([2, 3, 10]), hi=5000, log=True),
            dict(kind="float", name="decay", lo=0.1, hi=0.7),
-           dict(kind="cat", name="nest", choices=["no", "yes"])]
+           dict(kind="cat", name="nest", choices=["no", "yes"]),
+           dict(kind="ord", name="width", choices=rng.choice(UNSORTED_ORDINALS))]   # a numeric ordinal whose sequence is not increasing
     conds = [dict(child="mom", parent="opt", op="eq", value="sgd"),
+             dict(child="width", parent="opt", op="in", value=rng.choice([["sgd"], ["lion"], ["sgd", "lion"]])),
              dict(child="warm", parent="opt", op="in", value=["sgd", "lion"]),
              dict(child="nest", parent="opt", op="neq", value="adam"),
              dict(child="decay", parent="layers", op=rng.choice(["gt", "lt"]), value=4)]
@@ -1006,6 +1019,20 @@ def gen_search(quick_n, thorough_seeds=2):
             elif fam == 11:
                 c.update(options=dict(acq_optimizer_freq=1, n_jobs=2), design=rng.choice(["lhs", "grid"]), calls=[7, 6], surrogate=rng.choice(["ET", "DUMMY"]), workers=1)
             cases.append(c)
+        # told histories with objectives far from 0 relative to their spread / of huge or tiny magnitude / all equal, for every multi-point
+        # strategy and objective scaler (identity: GP, GBRT, HGBRT or objective_scaler="identity"; [0, 1]: the forests' default)
+        SCALES = [(-1000.0, 0.5), (5000.0, 1.0), (20000.0, 1.0), (-300.0, 0.1), (1e9, 1e-3), (0.0, 1e-9), (0.0, 1e12), (-1e15, 1.0)]
+        MODELS = [("GP", {}), ("HGBRT", {}), ("ET", {"objective_scaler": "identity"}), ("GBRT", {}), ("RF", {"objective_scaler": "minmax"}),
+                  ("ET", {}), ("RS", {"objective_scaler": "identity"}), ("TB", {"objective_scaler": "quantile-uniform"})]
+        nsc = 10 if tier == "quick" else 4 if tier == "search" else 112
+        for i in range(nsc):
+            sur, o = MODELS[i % len(MODELS)]
+            off, sc = SCALES[(i // 2 + i) % len(SCALES)] if i >= 4 else SCALES[i % 4]
+            strategy = "boltzmann" if i % 2 == 0 else opts["strategies"][(i // 2) % len(opts["strategies"])]
+            cases.append(dict(search="CBO", surrogate=sur, acq=rng.choice(["UCB", "EI", "UCBd", "PI"]), strategy=strategy, design="random",
+                              problem=gen_problem(rng, rng.choice(["mixed", "float", "int"])), fail=rng.choice(["none", "none", "some", "const"]),
+                              workers=rng.choice([2, 3, 4]), seed=rng.randint(0, 2 ** 20), evals=rng.randint(14, 20), n_init=rng.randint(3, 5), n_points=200,
+                              options=dict(o), offset=off, scale=sc))
         # the other search classes
         no = 2 if tier == "quick" else 1 if tier == "search" else 14
         for i in range(no):
@@ -1311,7 +1338,8 @@ def check_branches(case):
         dims = [c09.describe_dim(dm) for dm in space0.dimensions]
     else:
         dims = case["dims"]
-    desc = ["surrogate=%s" % case["surrogate"], "design=%s" % case["design"], "ndims=%d" % len(dims), "conditional=%s" % (cs_space is not None)]
+    desc = ["surrogate=%s" % case["surrogate"], "design=%s" % case["design"], "ndims=%d" % len(dims), "conditional=%s" % (cs_space is not None),
+            "scaler=%s" % case.get("scaler", "auto"), "objectives=%g+-%g" % (case.get("yoff", 0.0), case.get("yscale", 1.0))]
     res = dict(ok=True, kind="oracle", clause="", sig={"surrogate": case["surrogate"]}, nontrivial=False, desc=desc)
     n_canon_checked = 0
     with warnings.catch_warnings(), threadpool_limits(limits=1):
@@ -1322,7 +1350,7 @@ def check_branches(case):
         user = space.rvs(case["n_user"], random_state=rs) if case["n_user"] else []
         opt = Optimizer(space, base_estimator=est, n_initial_points=case["n_init"], initial_points=user, initial_point_generator=case["design"],
                         acq_func="LCB", acq_func_kwargs={"kappa": 1.96, "xi": 0.001}, acq_optimizer="sampling", acq_optimizer_kwargs={"n_points": 40},
-                        random_state=case["seed"])
+                        random_state=case["seed"], objective_scaler=case.get("scaler", "auto"))
         ddims = [c09.describe_dim(dm) for dm in opt.space.dimensions]
         toks = [c09.cat_tokens(d) if d["kind"] == "cat" else None for d in ddims]
         msp = [c09.enc_dim(d) for d in ddims]
@@ -1401,7 +1429,8 @@ def check_branches(case):
                 for x in pending:
                     told += 1
                     fail = (op[1] == "fail_some" and told % 3 == 0) or op[1] == "fail_all"
-                    ys.append("F" if fail else 1.0 if op[1] == "const" else float(math.sin(told) + told % 4))
+                    yoff, ysc = case.get("yoff", 0.0), case.get("yscale", 1.0)   # objectives far from 0 / huge / tiny (told values are minimised)
+                    ys.append("F" if fail else yoff + ysc * 1.0 if op[1] == "const" else yoff + ysc * float(math.sin(told) + told % 4))
                 st = state()
                 k_ok = sum(1 for y in ys if y != "F")
                 try:
@@ -1457,7 +1486,12 @@ def gen_branches(count):
             if n_init == 0:  # nothing to design: only the random generator copes with 0 points
                 yield dict(dims=dims, surrogate="RF", design="random", n_init=0, n_user=0, seed=rng.randint(0, 2 ** 20), ops=ops)
                 continue
-            yield dict(dims=dims, surrogate=rng.choice(["DUMMY", "RF", "RF", "RF"]), design=rng.choice(["random", "random", "sobol", "lhs", "grid", "halton", "hammersly"]),
+            mag = dict(zip(("yoff", "yscale"), rng.choice([(0.0, 1.0), (0.0, 1.0), (1000.0, 0.5), (-5000.0, 1.0), (0.0, 1e-9), (0.0, 1e12), (300.0, 0.1), (1e15, 1.0)])),
+                       scaler=rng.choice(["auto", "identity", "identity", "minmax"]))
+            if i % 2 == 0:   # the one-shot and q strategies on every magnitude
+                ops = ops + [["tell", "ok"], ["ask", rng.choice([2, 3, 4]), rng.choice(["boltzmann", "boltzmann", "topk", "qLCB"])], ["tell", rng.choice(["ok", "const"])],
+                             ["ask", rng.choice([2, 4]), "boltzmann"]]
+            yield dict(dims=dims, surrogate=rng.choice(["DUMMY", "RF", "RF", "RF"]), **mag, design=rng.choice(["random", "random", "sobol", "lhs", "grid", "halton", "hammersly"]),
                        n_init=n_init, n_user=rng.choice([0, 0, 1, 3, 3]) % n_init, seed=rng.randint(0, 2 ** 20), ops=ops)
     return gen
 
